@@ -38,6 +38,21 @@ dec!(c14_urldecode_n20, 20, 2);
 dec!(c14_urldecode_n21, 21, 2);
 dec!(c14_urldecode_n20_wide, 20, 3);
 
+#[kani::proof]
+#[kani::unwind(23)]
+#[kani::stub(std::backtrace::Backtrace::capture, crate::backtrace_stub)]
+#[kani::stub(alloc::fmt::format, crate::format_stub)]
+fn c14_urldecode_one_free_front() {
+    hu::c14_urldecode_one_free(true);
+}
+#[kani::proof]
+#[kani::unwind(23)]
+#[kani::stub(std::backtrace::Backtrace::capture, crate::backtrace_stub)]
+#[kani::stub(alloc::fmt::format, crate::format_stub)]
+fn c14_urldecode_one_free_back() {
+    hu::c14_urldecode_one_free(false);
+}
+
 const MAXCOUNT: usize = 100_000;
 
 fn any_count() -> usize {
